@@ -65,11 +65,34 @@ def gen_windows(rng, k=None, L=None):
     return wins, k, L, sc
 
 
+_SPELLING = [0]
+
+
+def pick_spelling(ctx, rng):
+    """How the case writes the default FFT normalisation: leaves it out, or spells it norm=None / norm="backward" (numpy's
+    two names of the default); with or without a length."""
+    _SPELLING[0] = int(rng.choice([0, 0, 1, 2, 3]))
+    if _SPELLING[0]:
+        ctx.count("cases_spelling_the_default_fft_settings_explicitly")
+
+
+def spelled(user_n):
+    k = _SPELLING[0]
+    base = {} if user_n is None else dict(n=int(user_n))
+    if k == 0:
+        return None if user_n is None else base
+    if k == 1:
+        return dict(base, norm=None)
+    if k == 2:
+        return dict(base, norm="backward")
+    return base                      # (an empty dict when no length is asked for)
+
+
 def psd_settings(alpha, user_n, smoothing=None):
     import hvsrpy
     st = hvsrpy.PsdProcessingSettings(window_type_and_width=("tukey", alpha),
                                       smoothing=dict(operator="konno_and_ohmachi", bandwidth=40., center_frequencies_in_hz=np.array([1.0])),
-                                      fft_settings=None if user_n is None else dict(n=int(user_n)))
+                                      fft_settings=spelled(user_n))
     st.smoothing = smoothing
     return st
 
@@ -85,6 +108,7 @@ def run_psd(ctx, wins, dt, alpha, user_n, smoothing=None, scale=1.0):
 
 
 def fam_parseval(ctx, rng):
+    pick_spelling(ctx, rng)
     wins, k, L, sc = gen_windows(rng)
     dt = float(DTS[int(rng.integers(0, len(DTS)))])
     alpha = float(rng.choice(gen.TUKEY))
@@ -140,6 +164,7 @@ def fam_parseval(ctx, rng):
 
 
 def fam_diffuse(ctx, rng):
+    pick_spelling(ctx, rng)
     import hvsrpy
     wins, k, L, sc = gen_windows(rng, L=int(rng.choice([101, 500, 4096, 9000])))
     dt = float(DTS[int(rng.integers(0, len(DTS)))])
@@ -339,6 +364,7 @@ def fam_response(ctx, rng):
 def fam_same_windows_reused(ctx, rng):
     """The SAME recording objects are processed several times (PSD, PSD again, diffuse field 'from the same windows',
     single-window Welch runs): every call must describe the samples the objects hold."""
+    pick_spelling(ctx, rng)
     import hvsrpy
     wins, k, L, sc = gen_windows(rng, k=int(rng.choice([1, 2, 4])), L=int(rng.choice([101, 500, 4096])))
     dt = float(DTS[int(rng.integers(0, len(DTS)))])
